@@ -12,7 +12,8 @@ CFG = dict(
     case_type="c13case",
     find_bad_from="Check.C13c.find_bad_from",
     go_tags="cl",
-    rigs=[dict(test="TestC13", timeout_quick=400, timeout_thorough=2400)],
+    rigs=[dict(test="TestC13", timeout_quick=400, timeout_thorough=2400),
+          dict(test="TestC13Surplus", timeout_quick=200, timeout_thorough=300)],
     reason_text={"1": "the real client's observation differs from every outcome of the Gallina model (Model/Client.v, all orders of internal rules)",
                  "3": "a unary call's result is not what the first delivered envelope carrying its id says",
                  "4": "a stream's messages are not, in order, the bodies of the delivered envelopes carrying its id",
@@ -22,12 +23,15 @@ CFG = dict(
                  "8": "panic in a client API call"},
     rule="lock-step in synctest bubbles, real client vs scripted peer, two outstanding calls (kind pairs unary+stream, stream+stream, "
          "unary+unary; streams with Header and RecvMsg waiting), alphabet = the 18 envelope shapes of clientgen.go x {call 0, call 1, "
-         "unknown id} = 54 symbols. QUICK (9572 cases): ALL sequences of length 1 (54 x 3 kind pairs x stats on/off = 324) and ALL of "
-         "length 2 for EVERY kind pair (54^2 x 3 = 8748), + 500 seeded random sequences of length 3..6. THOROUGH (~163k cases): the "
+         "unknown id} = 54 symbols. QUICK (9692 lock-step cases): ALL sequences of length 1 (54 x 3 kind pairs x stats on/off = 324) and ALL of "
+         "length 2 for EVERY kind pair (54^2 x 3 = 8748), + 500 seeded random sequences of length 3..6, + 120 (thorough 1500) 'then-new-calls' cases: a random sequence of 1..3 envelopes, THEN 1..2 calls (unary / stream) started afterwards, each answered by its own reply with a distinct token or left unanswered. THOROUGH (~163k cases): the "
          "same, + ALL length-3 sequences addressed to the two calls (36^3 = 46656) for EVERY kind pair (139968), + 8000 length-4 "
          "sequences sampled by the seed, + 6000 random of length 3..6. Stats handler installed on every other case; each case is closed "
          "by a read failure followed by RecvMsg / Trailer. The full <= 4 space of the property's quantifier (54^4 x 3 = 2.5e7 lock-step "
-         "cases) is beyond any tier; length 3 with unknown ids in the thorough tier (54^3 x 3 = 4.7e5) is left out for time. A process "
+         "cases) is beyond any tier; length 3 with unknown ids in the thorough tier (54^3 x 3 = 4.7e5) is left out for time. TestC13Surplus (216 cases, in a bubble, scripted peer): a unary call receives 1..3 replies in ONE burst (the surplus one lands in its "
+         "queue between its receive and its unregistration), optionally a stream holds unread messages, THEN 1..3 later calls (unary / "
+         "stream) are started on the same connection, each answered by its own reply (every token distinct) or not answered, then the read "
+         "fails: an answered call must report exactly its own data, an unanswered one an error. A process "
          "death is attributed to the scenario whose begin marker was last (crash = violation).",
     assumptions=["metadata is a token: decodable (value) or undecodable; payload bytes are a token, negative = bytes that do not unmarshal",
                  "the stats-handler path differs in nothing the model observes (D-13d fixed); both settings are run",
